@@ -40,10 +40,11 @@ Print Assumptions C06_restating_update_changes_nothing.
    Full statement (all kinds except UIDValidityBumped, which carries no state to restate):
      forall s e e' u s1 sus, cu_wf s -> u <> UUIDValidityBumped -> cu_tx s e u = Some (s1, sus) ->
        exists sus', cu_apply s1 e' u = (s1, AOk, sus') /\ filter cu_visible sus' = [].
-   Proved here for MailboxCreated/Deleted/Updated/IDChanged, MessageDeleted, MessageIDChanged, MessageFlagsUpdated, Noop;
-   for MessagesCreated, MessageMailboxesUpdated and MessageUpdated the second delivery is covered by
-   C06_restating_update_changes_nothing once the state restates them (checked on the implementation by the harness'
-   "dup" steps and on the model by the Examples below) — the implication "applied => restated" is not proved for these three. *)
+   Proved here for MailboxCreated/Deleted/Updated/IDChanged, MessageDeleted, MessageIDChanged, Noop (_partial),
+   MessageFlagsUpdated and MessageMailboxesUpdated (the two theorems that follow);
+   for MessagesCreated and MessageUpdated the second delivery is covered by C06_restating_update_changes_nothing once
+   the state restates them (checked on the implementation by the harness' "dup" steps and on the model by the Examples
+   below) — the implication "applied => restated" is not proved for these two. *)
 Theorem C06_duplicate_is_noop_partial : forall s e e' u s1 sus, cu_wf s -> cu_simple_kind u = true ->
   cu_tx s e u = Some (s1, sus) ->
   exists sus', cu_apply s1 e' u = (s1, AOk, sus') /\ filter cu_visible sus' = [].
@@ -55,6 +56,12 @@ Theorem C06_duplicate_flags_is_noop : forall s e e' rid flags s1 sus, cu_wf s ->
   cu_apply s1 e' (UMessageFlagsUpdated rid flags) = (s1, AOk, []).
 Proof. exact duplicate_flags_is_noop. Qed.
 Print Assumptions C06_duplicate_flags_is_noop.
+
+Theorem C06_duplicate_mailboxes_is_noop : forall s e e' rid mboxes flags s1 sus, cu_wf s ->
+  cu_tx s e (UMessageMailboxesUpdated rid mboxes flags) = Some (s1, sus) ->
+  exists sus', cu_apply s1 e' (UMessageMailboxesUpdated rid mboxes flags) = (s1, AOk, sus') /\ filter cu_visible sus' = [].
+Proof. exact duplicate_mailboxes_is_noop. Qed.
+Print Assumptions C06_duplicate_mailboxes_is_noop.
 
 (* UIDValidityBumped, however often delivered: no message, UID, flag, name, subscription or membership changes and
    nothing but the invalidation is queued — only the UIDVALIDITY values are replaced by the generated ones *)
@@ -107,7 +114,7 @@ Print Assumptions C06_message_deleted_effect.
 Theorem C06_message_id_changed_effect : forall s e iid rid m, cu_find_ms_id s iid = Some m ->
   existsb (fun x => cu_rid_is (ms_rid x) rid && negb (ms_id x =? iid)) (st_ms s) = false ->
   existsb (fun x => (me_rid x =? rid) && negb (me_ms x =? iid) && cu_mem (me_mb x) (cu_ms_mailboxes s iid)) (st_me s) = false ->
-  exists s1, cu_apply s e (UMessageIDChanged iid rid) = (s1, AOk, []) /\ st_mb s1 = st_mb s /\ st_seq s1 = st_seq s /\
+  exists s1, cu_apply s e (UMessageIDChanged iid rid) = (s1, AOk, [SuMessageRid iid rid]) /\ st_mb s1 = st_mb s /\ st_seq s1 = st_seq s /\
     (exists m1, cu_find_ms_id s1 iid = Some m1 /\ ms_rid m1 = Some rid /\ ms_lit m1 = ms_lit m /\ ms_flags m1 = ms_flags m) /\
     (forall x, In x (st_me s1) -> me_ms x = iid -> me_rid x = rid) /\
     map (fun x => (me_mb x, me_uid x, me_ms x)) (st_me s1) = map (fun x => (me_mb x, me_uid x, me_ms x)) (st_me s) /\
